@@ -75,6 +75,11 @@ theorem dmdsHand_eq_canon (x y amp xo yo sx sy th : ℝ) (hamp : amp ≠ 0) :
   simp only [dmdsHand, r_div]
   rw [gaussHand_eq]; unfold D_amp G; field_simp
 
+theorem dmds0Hand_eq_canon (x y amp xo yo sx sy th : ℝ) :
+    D_amp x y amp xo yo sx sy th = dmds0Hand x y amp xo yo sx sy th := by
+  simp only [dmds0Hand, R.real_ofNat, Nat.cast_one]
+  rw [gaussHand_eq]; unfold D_amp G; ring
+
 theorem dmdxoHand_eq_canon (x y amp xo yo sx sy th : ℝ) (hsx : sx ≠ 0) (hsy : sy ≠ 0) :
     D_xo x y amp xo yo sx sy th = dmdxoHand x y amp xo yo sx sy th := by
   simp only [dmdxoHand, r_add, r_sub, r_mul, r_div, r_neg, r_radians, R.real_sin, R.real_cos, R.real_npow]
